@@ -212,6 +212,12 @@ func genWindows(g *Rng, tier string) *Plan {
 			}
 			spec.Assertions = append(spec.Assertions, a)
 		}
+		if g.Bool(0.25) {
+			spec.Pretty = true
+			for ai := range spec.Assertions {
+				spec.Assertions[ai].Pretty = true
+			}
+		}
 		st.Spec = spec
 		p.Steps = append(p.Steps, mustJSON(st))
 	}
